@@ -538,3 +538,22 @@ pub fn install_logger(print: bool) {
     let _ = log::set_logger(&SINK);
     log::set_max_level(log::LevelFilter::Trace);
 }
+
+
+// ------------------------------------------------------------------------------------------------
+// Wall-clock deadline of a budgeted run (Miri leg): inner loops of long cases give up when it passed,
+// so that a shard ends near its budget instead of being killed with everything it observed.
+// ------------------------------------------------------------------------------------------------
+static DEADLINE_MS: std::sync::atomic::AtomicU64 = std::sync::atomic::AtomicU64::new(0);
+static START: std::sync::OnceLock<std::time::Instant> = std::sync::OnceLock::new();
+
+pub fn set_deadline_s(budget_s: f64) {
+    let _ = START.set(std::time::Instant::now());
+    DEADLINE_MS.store((budget_s * 1000.0) as u64 + 1, std::sync::atomic::Ordering::Relaxed);
+}
+
+/// True once the budget of a budgeted run is used up (never in unbudgeted runs).
+pub fn past_deadline() -> bool {
+    let d = DEADLINE_MS.load(std::sync::atomic::Ordering::Relaxed);
+    d != 0 && START.get().map(|s| s.elapsed().as_millis() as u64 > d).unwrap_or(false)
+}
